@@ -10,6 +10,8 @@
 
 #include "common/families.hpp"
 #include "common/refjson.hpp"
+#include <set>
+
 #include "common/runner.hpp"
 #include "common/sonic_cmp.hpp"
 #include "sonic/sonic.h"
@@ -233,6 +235,37 @@ int main(int argc, char** argv) {
   u3.group = "U3";
   u3.chunk = 512;
   u3.rule = "\\u escapes in which one of the four digit positions holds every byte value 0..255 (the other digits valid, three base values 0041 / 00e9 / AbCd), after p in 0..70 plain bytes (the escape at every position relative to the 16/32-byte blocks), all contexts: accepted only for the 22 hex digits, and then decoded exactly";
+  // P2: two literals in sibling positions of ONE document (a parser may remember something about the first)
+  static std::vector<std::string> p2b;
+  if (p2b.empty()) {
+    // decoded special characters in three spellings: short escape, \u escape, raw byte
+    struct Sp {
+      const char* esc;
+      const char* uesc;
+      const char* raw;
+    };
+    static const Sp sps[] = {{"\\\"", "\\u0022", "\""}, {"\\\\", "\\u005c", "\\"}, {"\\n", "\\u000a", "\n"}, {"\\t", "\\u0009", "\t"}, {"\\u0000", "\\u0000", nullptr}, {"\\/", "\\u002f", "/"}, {"\\u001f", "\\u001F", "\x1f"}};
+    std::set<std::string> seen;
+    auto add = [&](const std::string& b) {
+      if (seen.insert(b).second) p2b.push_back(b);
+    };
+    for (auto& sp : sps) {
+      std::string raw = sp.raw ? std::string(sp.raw) : std::string(1, '\0');  // nullptr stands for a raw NUL byte
+      for (const std::string& x : {std::string(sp.esc), std::string(sp.uesc), raw}) {
+        add(x);
+        add("a" + x);
+        add(x + "b");
+        add("a" + x + "b");
+      }
+    }
+    for (const char* b : {"", "a", "ab", "a\\", "k"}) add(b);
+  }
+  vr::Family p2;
+  p2.name = "P2_sibling_literals";
+  p2.count = (uint64_t)p2b.size() * p2b.size() * 4;
+  p2.group = "P2";
+  p2.chunk = 256;
+  p2.rule = "all ordered pairs (L1,L2) over " + std::to_string(p2b.size()) + " literal bodies (quote, backslash, LF, TAB, NUL, slash, 0x1f each as short escape / \\u escape / raw byte, alone and between plain bytes) in 4 two-literal documents ([{L1:1},{L2:2}], {x:{L1:1},y:{L2:2}}, [L1,L2], {L1:L2}): the document is accepted iff both literals are valid where they stand, and each key / value decodes exactly as it does alone";
   static const uint32_t Lb[64] = {0x0000, 0x0001, 0x001f, 0x0020, 0x0022, 0x005c, 0x007f, 0x0080, 0x00ff, 0x0100, 0x07ff, 0x0800, 0x0fff, 0x1000, 0x7fff, 0x8000,
                                   0xd7fe, 0xd7ff, 0xd800, 0xd801, 0xdbfe, 0xdbff, 0xdc00, 0xdc01, 0xdffe, 0xdfff, 0xe000, 0xe001, 0xfffe, 0xffff, 0xfeff, 0xfffd,
                                   0x0041, 0x00e9, 0x20ac, 0xd83d, 0xde00, 0xabcd, 0xABCD & 0xffff, 0x1234, 0x0a0a, 0xa0a0, 0xd900, 0xda00, 0xdb00, 0xdd00, 0xde01, 0xdf00,
@@ -328,6 +361,31 @@ int main(int argc, char** argv) {
       check_body(body, ctx);
       return;
     }
+    if (nm[0] == 'P') {
+      unsigned shape = (unsigned)(idx % 4);
+      idx /= 4;
+      const std::string& b1 = p2b[idx / p2b.size()];
+      const std::string& b2 = p2b[idx % p2b.size()];
+      std::string L1 = "\"" + b1 + "\"", L2 = "\"" + b2 + "\"";
+      std::string text = shape == 0 ? "[{" + L1 + ":1},{" + L2 + ":2}]" : shape == 1 ? "{\"x\":{" + L1 + ":1},\"y\":{" + L2 + ":2}}" : shape == 2 ? "[" + L1 + "," + L2 + "]" : "{" + L1 + ":" + L2 + "}";
+      ctx.eval();
+      ctx.nontriv();
+      if (ctx.want_sample) ctx.sample(vr::hex(text));
+      ref::Result r = ref::parse(text);
+      ExactBuf b(text);
+      Document doc;
+      doc.Parse(b.p, b.n);
+      if (!doc.HasParseError() != r.ok) {
+        ctx.violation("accept_mismatch", r.ok ? "siblings_reject_valid" : "siblings_accept_invalid", text, "two-literal document: impl %s (code %d) reference %s", doc.HasParseError() ? "rejects" : "accepts", (int)doc.GetParseError(), r.ok ? "accepts" : "rejects");
+        return;
+      }
+      if (!r.ok) return;
+      bool save = sc::g_skip_lookups_on_dup_keys;
+      std::string d = sc::compare(doc, r.v);
+      sc::g_skip_lookups_on_dup_keys = save;
+      if (!d.empty()) ctx.violation("decode_mismatch", "siblings_decode_mismatch", text, "two-literal document: %s", d.c_str());
+      return;
+    }
     if (nm[0] == 'U' && nm[1] == '3') {
       static const char* bases[3] = {"0041", "00e9", "AbCd"};
       unsigned bi = (unsigned)(idx % 3);
@@ -370,10 +428,10 @@ int main(int argc, char** argv) {
     check_pair_direct((uint32_t)(idx >> 16), (uint32_t)(idx & 0xffff), ctx, false);
   };
 
-  std::vector<vr::Family> fams = {s1, s1r, s3, u1, u3, u2a, u2b};
+  std::vector<vr::Family> fams = {s1, s1r, s3, u1, u3, p2, u2a, u2b};
   if (!quick && !asan) fams.push_back(u2c);
   if (args.replay) {
-    std::vector<vr::Family> all = {s1, s1r, s3, u1, u3, u2a, u2b, u2c};
+    std::vector<vr::Family> all = {s1, s1r, s3, u1, u3, p2, u2a, u2b, u2c};
     return R.replay_one(all, check);
   }
   const std::string only = args.get("only");
